@@ -399,6 +399,12 @@ def lookalike_parents(ctx, case, rng):
 # --------------------------------------------------------------------------------------------------------------
 # workload
 # --------------------------------------------------------------------------------------------------------------
+def setup(ctx):
+    from bcv import core
+
+    core.codon_storm(ctx)
+
+
 def selftest():
     from bcv.core import HarnessError
 
